@@ -93,6 +93,10 @@ class Engine:
         sort = sort if sort is not None else self.voc.Val
         return z3.Const(f"{prefix}!{next(self.fresh_n)}", sort)
 
+    def bv(self, prefix, sort=None):
+        """a bound variable with a globally unique name: z3's SMT2 printer does not rename clashing nested binders"""
+        return z3.Const(f"{prefix}%{next(self.fresh_n)}", sort if sort is not None else self.voc.Val)
+
     def fresh_sv(self, prefix, pt="any"):
         if pt in NATIVE:
             return SV(self.fresh(prefix, NATIVE[pt]()), pt)
@@ -119,10 +123,10 @@ class Engine:
             return None
         c = v.cls[esort]
         if pt in ("list", "tuple"):
-            j = z3.Int("ej")
+            j = self.bv("ej", z3.IntSort())
             return z3.ForAll([j], z3.Implies(z3.And(0 <= j, j < v.slen(term)), v.ty(v.sat(term, j)) == c), patterns=[v.sat(term, j)])
         if pt in ("set", "frozenset"):
-            x = z3.Const("ex", v.Val)
+            x = self.bv("ex")
             return z3.ForAll([x], z3.Implies(v.has(term, x), v.ty(x) == c), patterns=[v.has(term, x)])
         return None
 
